@@ -116,6 +116,16 @@ pub fn exec_op(ctx: &C19Ctx, verb: &str, m: &BTreeMap<String, String>) -> String
             let md = a.codecs().create_metadatas();
             probe_run(move || CodecChain::from_metadata(&md).is_ok())
         }
+        "codec_chain_new" => {
+            // a chain built by hand from codec objects (`CodecChain::new` names each codec through the alias table of the
+            // configuration), and rebuilt with the names it has (`new_named`)
+            let a = match open() { Some(a) => a, None => return "skip".into() };
+            let chain = a.codecs();
+            let a2a: Vec<_> = chain.array_to_array_codecs().iter().map(|c| c.codec().clone()).collect();
+            let a2b = chain.array_to_bytes_codec().codec().clone();
+            let b2b: Vec<_> = chain.bytes_to_bytes_codecs().iter().map(|c| c.codec().clone()).collect();
+            probe_run(move || { let c = CodecChain::new(a2a, a2b, b2b); let _ = c.create_metadatas(); true })
+        }
         "options_default" => probe_run(|| { let _ = CodecOptions::default(); let _ = ArrayMetadataOptions::default(); let _ = GroupMetadataOptions::default(); true }),
         "array_write_read" => {
             let a = match open() { Some(a) => a, None => return "skip".into() };
@@ -176,7 +186,7 @@ pub fn generate(tier: &str, seed: u64) -> Vec<String> {
     let ncfg = if thorough { 1200 } else { 150 };
     let mut out = vec![];
     let ops = ["array_open", "array_metadata_opt", "array_store_metadata", "array_builder", "array_to_v3", "codec_chain_from_metadata",
-               "options_default", "group_ops", "array_read_variants", "array_metadata_variants"];
+               "codec_chain_new", "options_default", "group_ops", "array_read_variants", "array_metadata_variants"];
     // hand-written documents: V2 metadata, fixedscaleoffset, nested sharding
     for (name, doc) in V2_DOCS.iter() {
         out.push(format!("c19 cfg name={} path=/a v2=1 es={} meta={}", name, if name.contains("zlib") { 4 } else { 8 }, hex(doc.as_bytes())));
